@@ -14,6 +14,7 @@ import (
 	"sort"
 	"strings"
 	"sync"
+	"sync/atomic"
 	"testing"
 	"time"
 
@@ -29,9 +30,18 @@ type e3 struct {
 	distinct map[string]bool
 	viols    map[string]*FoundViolation
 	samples  []string
+	beat     atomic.Int64 // bumped per case; the watchdog in TestE3 reads it
+	doing    atomic.Value // string: what the enumeration is calling right now
+}
+
+// at names the call that comes next, for the report of a call that never returns.
+func (e *e3) at(format string, a ...any) {
+	e.doing.Store(fmt.Sprintf(format, a...))
+	e.beat.Add(1)
 }
 
 func (e *e3) mine() bool {
+	e.beat.Add(1)
 	e.n++
 	return e.n%e.nshards == e.shard
 }
@@ -51,6 +61,9 @@ func (e *e3) sample(format string, a ...any) {
 	}
 }
 
+// e3Stall is how long one case of an enumeration may take before it counts as hung.
+const e3Stall = 60 * time.Second
+
 var e3tests = map[string]func(e *e3, thorough bool){}
 
 func TestE3(t *testing.T) {
@@ -66,8 +79,43 @@ func TestE3(t *testing.T) {
 	if s := os.Getenv("VERIF_SHARD"); s != "" {
 		fmt.Sscanf(s, "%d/%d", &e.shard, &e.nshards)
 	}
+	e3cur = e
 	t0 := time.Now()
-	f(e, os.Getenv("VERIF_BOUND") == "thorough")
+	// A call that spins or blocks for ever would take the worker down with a
+	// test timeout. The enumerations finish in seconds altogether, so a minute
+	// without reaching the next case is reported as a call that never returns.
+	done := make(chan struct{})
+	go func() {
+		defer close(done)
+		f(e, os.Getenv("VERIF_BOUND") == "thorough")
+	}()
+	hung := false
+	for last, since := int64(-1), time.Now(); !hung; {
+		select {
+		case <-done:
+		case <-time.After(2 * time.Second):
+			if b := e.beat.Load() + int64(e.evals); b != last {
+				last, since = b, time.Now()
+			} else if time.Since(since) > e3Stall {
+				hung = true
+			}
+			continue
+		}
+		break
+	}
+	if hung {
+		what, _ := e.doing.Load().(string)
+		if what == "" {
+			what = fmt.Sprintf("case %d", e.n)
+		}
+		prop := strings.ToUpper(name[:3])
+		viols := map[string]*FoundViolation{prop + "|call-never-returns#e3": {Prop: prop, Sig: "call-never-returns#e3", Scenario: "e3:" + name, Count: 1,
+			Detail: fmt.Sprintf("the enumeration made no progress for %v inside %s: a library call neither returns nor fails", e3Stall, what)}}
+		for k, v := range e.viols { // what the stuck enumeration had found before
+			viols[k] = v
+		}
+		e.viols = viols
+	}
 	r := e.res
 	r.Shard = fmt.Sprintf("%d/%d", e.shard, e.nshards)
 	r.Bound = os.Getenv("VERIF_BOUND")
@@ -87,8 +135,15 @@ func TestE3(t *testing.T) {
 	}
 	sort.Slice(r.Violations, func(i, j int) bool { return r.Violations[i].Sig < r.Violations[j].Sig })
 	r.WallS = time.Since(t0).Seconds()
+	if hung {
+		r.Exhaustive = false
+		r.StoppedBy = "call never returns"
+	}
 	if out := os.Getenv("VERIF_OUT"); out != "" {
 		writeJSON(out, r)
+		if hung {
+			os.Exit(0) // the stuck goroutine cannot be stopped
+		}
 	} else {
 		for _, v := range r.Violations {
 			fmt.Println("VIOLATION", v.Prop, v.Sig, v.Count, v.Detail)
@@ -295,8 +350,26 @@ func onlineClient(cfg mqtt.Config, store mqtt.Persistence) (*mqtt.Client, *loopC
 	}()
 	<-c.Online()
 	conn.reset()
-	return c, conn, func() { c.Close(); <-done }, nil
+	stop := func() {
+		if e := e3cur; e != nil {
+			e.at("Close at the end of the enumeration")
+		}
+		go c.Close()
+		select {
+		case <-done:
+		case <-time.After(e3Stall / 2):
+			// reported rather than waited for: the enumeration's findings so far matter more
+			if e := e3cur; e != nil {
+				prop := strings.ToUpper(e.res.Scenario[:3])
+				e.violate(prop, "close-never-returns#e3", "Close did not end the read routine within %v at the end of the enumeration", e3Stall/2)
+			}
+		}
+	}
+	return c, conn, stop, nil
 }
+
+// e3cur is the running enumeration, for reports from helpers.
+var e3cur *e3
 
 var _ = bytes.Equal
 var _ = io.EOF
